@@ -1,6 +1,918 @@
-//! C06 — stub (to be implemented).
+//! C06 — SAM text records and headers round-trip, and SAM and BAM carry the same content.
+//!
+//! Monitor, per batch of generated records (gensam `Level::SamText`: everything SAM text can carry)
+//! over a generated header (any mix of @HD/@SQ/@RG/@PG/@CO, standard and user tags):
+//!  (i)   `parse(write(x)) == x`: noodles' SAM text is read back by `read_record_buf`, by the lazy
+//!        `sam::Record` (trait view and `RecordBuf::try_from_alignment_record`) and compared with the
+//!        expected value computed from the description (integers by numeric value);
+//!  (ii)  fixed point: the parsed header and records (eager and lazy) written again reproduce the
+//!        text byte for byte;
+//!  (iii) third opinion: each emitted line is split at TABs and compared with gensam's independent
+//!        rendering (11 mandatory columns and every aux field whose text is canonical byte for
+//!        byte; float fields by value through Rust's std parser), the header text is parsed by a
+//!        dumb reader and compared with the description;
+//!  (iv)  the same record set written as BAM reads back as equal header and equal records (BAM
+//!        alphabet normal form on bases, integers by value); SAM→BAM→SAM reproduces the text (SEQ
+//!        column in BAM normal form) and BAM→SAM→BAM the records, both with lazy records handed
+//!        directly to the other format's writer and through `RecordBuf::try_from_alignment_record`.
+//! Header-only cases do (i)–(iv) for headers, plus the binary reference list of the BAM header.
+
+use std::io::Write;
+
+use gensam::{
+    Cmp, HeaderDesc, HeaderOpts, Level, RecDesc, RecOpts, aux_text_is_canonical, bam_bases, bam_normal_form, boundary_records,
+    describe_alignment_record, describe_header, describe_record, diff_records, gen_header, gen_record, header_text, parse_header_text,
+    parse_sam_line, rec_class, sam_columns, sam_normal_form, split_bam_stream, summary, to_header, to_record_buf,
+};
+use noodles_bam as bam;
+use noodles_sam::{self as sam, alignment::RecordBuf, alignment::io::Write as _};
+use serde_json::json;
+use vcore::{CaseOut, Ctx, Report, Rng, guard, rng::fnv1a, run_cases};
+
+#[derive(Clone, Debug)]
+struct Case {
+    /// "boundary" | "witness" | "records" | "huge" | "headers"
+    kind: &'static str,
+    n: usize,
+    cseed: u64,
+}
+
+fn case_json(c: &Case) -> serde_json::Value {
+    json!({"kind": c.kind, "n": c.n, "cseed": c.cseed})
+}
+
+fn gen_cases(ctx: &Ctx) -> Vec<Case> {
+    let mut v = vec![Case { kind: "boundary", n: 0, cseed: 0 }, Case { kind: "boundary", n: 0, cseed: 1 }, Case { kind: "witness", n: 1, cseed: 2 }];
+    let per_case = ctx.budget("per_case", 200, 250) as usize;
+    let records = ctx.budget("records", 20_000, 1_000_000) as usize;
+    for i in 0..records.div_ceil(per_case) {
+        v.push(Case { kind: "records", n: per_case, cseed: ctx.seed.wrapping_mul(1_000_003).wrapping_add(i as u64) });
+    }
+    for i in 0..ctx.budget("huge_cases", 3, 30) {
+        v.push(Case { kind: "huge", n: 4, cseed: ctx.seed.wrapping_mul(7_000_003).wrapping_add(i) });
+    }
+    let headers = ctx.budget("headers", 2_000, 50_000) as usize;
+    let per_h = 100;
+    for i in 0..headers.div_ceil(per_h) {
+        v.push(Case { kind: "headers", n: per_h, cseed: ctx.seed.wrapping_mul(9_000_011).wrapping_add(i as u64) });
+    }
+    v
+}
+
+fn reason(e: &std::io::Error) -> String {
+    fn level(m: String) -> String {
+        match m.split_once(": ") {
+            Some((head, rest)) if !rest.starts_with("expected") => head.to_string(),
+            _ => m,
+        }
+    }
+    let mut s = level(e.to_string());
+    let mut src: Option<&(dyn std::error::Error + 'static)> = e.get_ref().and_then(|r| r.source());
+    while let Some(x) = src {
+        s.push_str(" / ");
+        s.push_str(&level(x.to_string()));
+        src = x.source();
+    }
+    guard::normalise_message(&s).chars().take(100).collect()
+}
+
+fn lossy(b: &[u8]) -> String {
+    let s = String::from_utf8_lossy(&b[..b.len().min(300)]).replace('\t', "\\t").replace('\n', "\\n");
+    if b.len() > 300 { format!("{s}… ({} bytes)", b.len()) } else { s }
+}
+
+/// Runs `f` under the panic monitor; a panic becomes a violation and `None`.
+fn guarded<T>(out: &mut CaseOut, what: &str, f: impl FnOnce() -> T) -> Option<T> {
+    match guard::catch(f) {
+        Ok(v) => Some(v),
+        Err(p) => {
+            out.violation(format!("panic:{}", p.sig), format!("{what} panicked: {} at {}:{}", p.message, p.file, p.line));
+            None
+        }
+    }
+}
+
+// ------------------------------------------------------------------------------------------------
+// small I/O helpers over noodles
+
+fn sam_header_text(h: &sam::Header) -> std::io::Result<Vec<u8>> {
+    let mut w = sam::io::Writer::new(Vec::new());
+    w.write_header(h)?;
+    Ok(w.into_inner())
+}
+
+fn sam_line<R: sam::alignment::Record + ?Sized>(h: &sam::Header, r: &R) -> std::io::Result<Vec<u8>> {
+    let mut w = sam::io::Writer::new(Vec::new());
+    sam::alignment::io::Write::write_alignment_record(&mut w, h, &RecAdapter(r))?;
+    Ok(w.into_inner())
+}
+
+/// `write_alignment_record` takes `&dyn Record`; this forwards any `R: Record + ?Sized`.
+struct RecAdapter<'a, R: ?Sized>(&'a R);
+
+impl<R: sam::alignment::Record + ?Sized> sam::alignment::Record for RecAdapter<'_, R> {
+    fn name(&self) -> Option<&bstr::BStr> {
+        self.0.name()
+    }
+    fn flags(&self) -> std::io::Result<sam::alignment::record::Flags> {
+        self.0.flags()
+    }
+    fn reference_sequence_id<'r, 'h: 'r>(&'r self, header: &'h sam::Header) -> Option<std::io::Result<usize>> {
+        self.0.reference_sequence_id(header)
+    }
+    fn alignment_start(&self) -> Option<std::io::Result<noodles_core::Position>> {
+        self.0.alignment_start()
+    }
+    fn mapping_quality(&self) -> Option<std::io::Result<sam::alignment::record::MappingQuality>> {
+        self.0.mapping_quality()
+    }
+    fn cigar(&self) -> Box<dyn sam::alignment::record::Cigar + '_> {
+        self.0.cigar()
+    }
+    fn mate_reference_sequence_id<'r, 'h: 'r>(&'r self, header: &'h sam::Header) -> Option<std::io::Result<usize>> {
+        self.0.mate_reference_sequence_id(header)
+    }
+    fn mate_alignment_start(&self) -> Option<std::io::Result<noodles_core::Position>> {
+        self.0.mate_alignment_start()
+    }
+    fn template_length(&self) -> std::io::Result<i32> {
+        self.0.template_length()
+    }
+    fn sequence(&self) -> Box<dyn sam::alignment::record::Sequence + '_> {
+        self.0.sequence()
+    }
+    fn quality_scores(&self) -> Box<dyn sam::alignment::record::QualityScores + '_> {
+        self.0.quality_scores()
+    }
+    fn data(&self) -> Box<dyn sam::alignment::record::Data<'_> + '_> {
+        self.0.data()
+    }
+    fn cigar_ref(&self) -> sam::alignment::record::CigarRef<'_> {
+        self.0.cigar_ref()
+    }
+    fn sequence_ref(&self) -> sam::alignment::record::SequenceRef<'_> {
+        self.0.sequence_ref()
+    }
+    fn quality_scores_ref(&self) -> sam::alignment::record::QualityScoresRef<'_> {
+        self.0.quality_scores_ref()
+    }
+    fn data_ref(&self) -> sam::alignment::record::DataRef<'_> {
+        self.0.data_ref()
+    }
+}
+
+struct SamFile {
+    header: sam::Header,
+    eager: Vec<RecordBuf>,
+}
+
+fn read_sam_eager(text: &[u8]) -> Result<SamFile, String> {
+    let mut r = sam::io::Reader::new(text);
+    let header = r.read_header().map_err(|e| format!("read_header: {}", reason(&e)))?;
+    let mut eager = Vec::new();
+    loop {
+        let mut rb = RecordBuf::default();
+        match r.read_record_buf(&header, &mut rb) {
+            Ok(0) => break,
+            Ok(_) => eager.push(rb),
+            Err(e) => return Err(format!("read_record_buf #{}: {}", eager.len(), reason(&e))),
+        }
+    }
+    Ok(SamFile { header, eager })
+}
+
+fn read_sam_lazy(text: &[u8]) -> Result<Vec<sam::Record>, String> {
+    let mut r = sam::io::Reader::new(text);
+    r.read_header().map_err(|e| format!("read_header: {}", reason(&e)))?;
+    let mut v = Vec::new();
+    loop {
+        let mut rec = sam::Record::default();
+        match r.read_record(&mut rec) {
+            Ok(0) => break,
+            Ok(_) => v.push(rec),
+            Err(e) => return Err(format!("read_record #{}: {}", v.len(), reason(&e))),
+        }
+    }
+    Ok(v)
+}
+
+/// Writes a BAM file (BGZF or raw); per record Ok / rejection reason.
+fn write_bam<R: sam::alignment::Record>(bgzf: bool, h: &sam::Header, recs: &[R]) -> Result<(Vec<u8>, Vec<Result<(), String>>), String> {
+    fn go<W: Write, R: sam::alignment::Record>(w: &mut bam::io::Writer<W>, h: &sam::Header, recs: &[R]) -> Result<Vec<Result<(), String>>, String> {
+        w.write_header(h).map_err(|e| format!("write_header: {}", reason(&e)))?;
+        Ok(recs.iter().map(|r| w.write_alignment_record(h, r).map_err(|e| reason(&e))).collect())
+    }
+    if bgzf {
+        let mut w = bam::io::Writer::new(Vec::new());
+        let res = go(&mut w, h, recs)?;
+        let file = w.into_inner().finish().map_err(|e| format!("finish: {e}"))?;
+        Ok((file, res))
+    } else {
+        let mut w = bam::io::Writer::from(Vec::new());
+        let res = go(&mut w, h, recs)?;
+        Ok((w.into_inner(), res))
+    }
+}
+
+fn read_bam_eager(bgzf: bool, file: &[u8]) -> Result<(sam::Header, Vec<RecordBuf>), String> {
+    fn go<R: std::io::Read>(mut r: bam::io::Reader<R>) -> Result<(sam::Header, Vec<RecordBuf>), String> {
+        let h = r.read_header().map_err(|e| format!("read_header: {}", reason(&e)))?;
+        let mut v = Vec::new();
+        loop {
+            let mut rb = RecordBuf::default();
+            match r.read_record_buf(&h, &mut rb) {
+                Ok(0) => break,
+                Ok(_) => v.push(rb),
+                Err(e) => return Err(format!("read_record_buf #{}: {}", v.len(), reason(&e))),
+            }
+        }
+        Ok((h, v))
+    }
+    if bgzf { go(bam::io::Reader::new(file)) } else { go(bam::io::Reader::from(file)) }
+}
+
+fn read_bam_lazy(bgzf: bool, file: &[u8]) -> Result<Vec<bam::Record>, String> {
+    fn go<R: std::io::Read>(mut r: bam::io::Reader<R>) -> Result<Vec<bam::Record>, String> {
+        r.read_header().map_err(|e| format!("read_header: {}", reason(&e)))?;
+        let mut v = Vec::new();
+        loop {
+            let mut rec = bam::Record::default();
+            match r.read_record(&mut rec) {
+                Ok(0) => break,
+                Ok(_) => v.push(rec),
+                Err(e) => return Err(format!("read_record #{}: {}", v.len(), reason(&e))),
+            }
+        }
+        Ok(v)
+    }
+    if bgzf { go(bam::io::Reader::new(file)) } else { go(bam::io::Reader::from(file)) }
+}
+
+// ------------------------------------------------------------------------------------------------
+// headers
+
+/// All header checks for one description. Returns the noodles text (None if the writer rejected it).
+fn check_header(out: &mut CaseOut, hd: &HeaderDesc, bgzf: bool) -> Option<Vec<u8>> {
+    let h = to_header(hd);
+    let text = match guarded(out, "sam write_header", || sam_header_text(&h))? {
+        Ok(t) => t,
+        Err(e) => {
+            out.count(&format!("header_rejected_by_sam_writer[{}]", reason(&e)), 1);
+            return None;
+        }
+    };
+    out.count("headers_written", 1);
+    // (iii) third opinion: text against the independent rendering / the dumb reader
+    match parse_header_text(&text) {
+        Err(e) => out.violation("header:independent-reader-rejects-text", format!("dumb header reader: {e}; text: {}", lossy(&text))),
+        Ok(d) if d != *hd => out.violation(
+            "header:text-ne-description",
+            format!("the emitted header text does not say what the description says; text: {}; expected text: {}", lossy(&text), lossy(&header_text(hd))),
+        ),
+        Ok(_) => {}
+    }
+    if text != header_text(hd) {
+        // same content in another (valid) layout is not a violation of the statement
+        out.count("header_text_layout_differs_from_independent_rendering", 1);
+    }
+    // (i) parse back, through the reader and through FromStr
+    let parsed = guarded(out, "sam read_header", || {
+        let mut r = sam::io::Reader::new(&text[..]);
+        r.read_header()
+    })?;
+    let parsed = match parsed {
+        Ok(p) => p,
+        Err(e) => {
+            out.violation(format!("header:parse-fails:{}", reason(&e)), format!("noodles cannot parse its own header text: {e}; text: {}", lossy(&text)));
+            return Some(text);
+        }
+    };
+    if describe_header(&parsed) != *hd {
+        out.violation("header:parse-write-ne", format!("parse(write(header)) != header; text: {}", lossy(&text)));
+    }
+    if let Ok(s) = std::str::from_utf8(&text) {
+        match guarded(out, "Header::from_str", || s.parse::<sam::Header>())? {
+            Ok(p2) => {
+                if describe_header(&p2) != *hd {
+                    out.violation("header:from_str-ne", format!("Header::from_str(write(header)) != header; text: {}", lossy(&text)));
+                }
+            }
+            Err(e) => out.violation("header:from_str-fails", format!("Header::from_str fails on noodles' own text: {e}; text: {}", lossy(&text))),
+        }
+    }
+    // (ii) fixed point
+    match guarded(out, "sam write_header", || sam_header_text(&parsed))? {
+        Ok(t2) if t2 == text => {}
+        Ok(t2) => out.violation("header:not-a-fixed-point", format!("write(parse(text)) != text: {} vs {}", lossy(&t2), lossy(&text))),
+        Err(e) => out.violation("header:rewrite-fails", format!("the parsed header cannot be written: {e}")),
+    }
+    // (iv) BAM rendering
+    let res = guarded(out, "bam write_header", || write_bam::<RecordBuf>(bgzf, &h, &[]))?;
+    let (file, _) = match res {
+        Ok(x) => x,
+        Err(e) => {
+            out.count(&format!("header_rejected_by_bam_writer[{e}]"), 1);
+            return Some(text);
+        }
+    };
+    let stream = if bgzf {
+        match vcore::bgzf::walk(&file) {
+            Ok(w) => w.concat(),
+            Err(e) => {
+                out.violation("bam-header:bgzf-walk-failed", e);
+                return Some(text);
+            }
+        }
+    } else {
+        file.clone()
+    };
+    match split_bam_stream(&stream) {
+        Err(e) => out.violation("bam-header:split-failed", format!("independent splitter: {e}")),
+        Ok(s) => {
+            let want: Vec<(Vec<u8>, i32)> = hd.sq.iter().map(|q| (q.name.clone(), q.len as i32)).collect();
+            if s.refs != want {
+                out.violation("bam-header:reference-list", format!("binary reference list has {} entries, dictionary {}", s.refs.len(), want.len()));
+            }
+            match parse_header_text(&s.text) {
+                Ok(d) if d == *hd => {}
+                Ok(_) => out.violation("bam-header:text-ne-description", format!("header text stored in BAM: {}", lossy(&s.text))),
+                Err(e) => out.violation("bam-header:independent-reader-rejects-text", format!("{e}; text: {}", lossy(&s.text))),
+            }
+        }
+    }
+    match guarded(out, "bam read_header", || read_bam_eager(bgzf, &file))? {
+        Ok((hb, _)) => {
+            out.count("headers_compared_sam_vs_bam", 1);
+            if describe_header(&hb) != describe_header(&parsed) {
+                out.violation("header:bam-ne-sam", format!("header read from BAM != header read from SAM; SAM text: {}", lossy(&text)));
+            }
+        }
+        Err(e) => out.violation(format!("bam-header:read-fails:{}", e.chars().take(60).collect::<String>()), format!("BAM header cannot be read back: {e}; SAM text: {}", lossy(&text))),
+    }
+    Some(text)
+}
+
+fn header_class(h: &HeaderDesc) -> String {
+    let b = |n: usize| match n {
+        0 => "0",
+        1 => "1",
+        2..=9 => "few",
+        _ => "many",
+    };
+    let user = |tags: &Vec<(gensam::Tag2, Vec<u8>)>| tags.iter().any(|t| t.0[0].is_ascii_lowercase()) as u8;
+    format!(
+        "hd{}{}|sq{}u{}|rg{}u{}|pg{}pp{}|co{}",
+        h.hd.is_some() as u8,
+        h.hd.as_ref().map(|x| format!("v{}.{}t{}", x.version.0.min(3), x.version.1.min(9), x.tags.len().min(3))).unwrap_or_default(),
+        b(h.sq.len()),
+        h.sq.iter().map(|s| user(&s.tags)).max().unwrap_or(0),
+        b(h.rg.len()),
+        h.rg.iter().map(|s| user(&s.tags)).max().unwrap_or(0),
+        b(h.pg.len()),
+        h.pg.iter().any(|p| p.tags.iter().any(|t| &t.0 == b"PP")) as u8,
+        b(h.co.len()),
+    )
+}
+
+// ------------------------------------------------------------------------------------------------
+// records
+
+/// Compares two SAM texts line by line; `norm_seq` puts column 10 of `a` into BAM normal form.
+/// One entry per differing line: (line index, column index or usize::MAX for a column-count
+/// difference, a, b).
+fn text_diff(a: &[u8], b: &[u8], norm_seq: bool) -> Vec<(usize, usize, Vec<u8>, Vec<u8>)> {
+    let la: Vec<&[u8]> = a.split(|c| *c == b'\n').collect();
+    let lb: Vec<&[u8]> = b.split(|c| *c == b'\n').collect();
+    let mut out = Vec::new();
+    for i in 0..la.len().max(lb.len()) {
+        let (x, y) = (la.get(i).copied().unwrap_or(b"<no line>"), lb.get(i).copied().unwrap_or(b"<no line>"));
+        if x == y {
+            continue;
+        }
+        let cx: Vec<&[u8]> = x.split(|c| *c == b'\t').collect();
+        let cy: Vec<&[u8]> = y.split(|c| *c == b'\t').collect();
+        if cx.len() != cy.len() {
+            out.push((i, usize::MAX, x.to_vec(), y.to_vec()));
+            continue;
+        }
+        for j in 0..cx.len() {
+            let same = if j == 9 && norm_seq && !x.starts_with(b"@") && cx[j] != b"*" { bam_bases(cx[j]) == cy[j] } else { cx[j] == cy[j] };
+            if !same {
+                out.push((i, j, cx[j].to_vec(), cy[j].to_vec()));
+                break;
+            }
+        }
+    }
+    out
+}
+
+/// `b` is `a` plus exactly one more column, a `CG:B:I` field.
+fn only_extra_cg_column(a: &[u8], b: &[u8]) -> bool {
+    let ca: Vec<&[u8]> = a.split(|c| *c == b'\t').collect();
+    let cb: Vec<&[u8]> = b.split(|c| *c == b'\t').collect();
+    let rest: Vec<&[u8]> = cb.iter().copied().filter(|c| !c.starts_with(b"CG:B:I")).collect();
+    cb.len() == ca.len() + 1 && rest.len() == ca.len() && rest.iter().zip(&ca).enumerate().all(|(j, (x, y))| if j == 9 && **y != b"*"[..] { bam_bases(y) == **x } else { x == y })
+}
+
+const COLS: [&str; 11] = ["QNAME", "FLAG", "RNAME", "POS", "MAPQ", "CIGAR", "RNEXT", "PNEXT", "TLEN", "SEQ", "QUAL"];
+
+fn col_name(j: usize) -> String {
+    if j == usize::MAX {
+        "column-count".into()
+    } else if j < 11 {
+        COLS[j].into()
+    } else {
+        "aux".into()
+    }
+}
+
+fn run_records(c: &Case, idx: u64, out: &mut CaseOut) {
+    let mut rng = Rng::new(c.cseed, 0xC06, 1);
+    let ho = HeaderOpts { min_refs: if c.cseed % 6 == 0 { 0 } else { 1 }, max_refs: 12, big_refs: true, rich: c.cseed % 2 == 0, hd: None };
+    let hd = gen_header(&mut rng, &ho);
+    let bgzf = c.cseed % 2 == 1;
+    let descs: Vec<RecDesc> = match c.kind {
+        "boundary" => boundary_records(&hd, Level::SamText, true),
+        // deterministic witness of a known finding: a long CIGAR and an empty array as the *last*
+        // field (the lazy SAM view reads it; after a BAM hop the retained CG field follows it)
+        "witness" => vec![RecDesc {
+            name: Some(b"long-cigar-empty-array-last".to_vec()),
+            flags: 0,
+            pos: Some(7),
+            ref_id: if hd.sq.is_empty() { None } else { Some(0) },
+            mapq: Some(1),
+            cigar: (0..65_536).map(|j| (b"MI"[j % 2], 1u32)).collect(),
+            seq: vec![b'A'; 65_536],
+            aux: vec![(*b"NM", gensam::AuxDesc::U8(0)), (*b"XB", gensam::AuxDesc::BI16(vec![]))],
+            ..Default::default()
+        }],
+        "huge" => {
+            let mut o = RecOpts::sam_text();
+            o.huge_cigar_permille = 1000;
+            (0..c.n).map(|_| gen_record(&mut rng, &hd, &o)).collect()
+        }
+        _ => {
+            let mut o = RecOpts::sam_text();
+            if c.cseed % 3 == 0 {
+                o.max_seq_len = 1500;
+                o.max_array_len = 2000;
+            }
+            (0..c.n).map(|_| gen_record(&mut rng, &hd, &o)).collect()
+        }
+    };
+    out.evaluations = descs.len() as u64;
+    let Some(htext) = check_header(out, &hd, bgzf) else {
+        out.inconclusive.push("the SAM writer rejected the generated header".into());
+        return;
+    };
+    let h = to_header(&hd);
+    let rbs: Vec<RecordBuf> = descs.iter().map(|d| to_record_buf(d, &hd)).collect();
+
+    // write every record on its own (a rejected record may leave a partial line behind)
+    let mut acc: Vec<usize> = Vec::new();
+    let mut lines: Vec<Vec<u8>> = Vec::new();
+    for (i, rb) in rbs.iter().enumerate() {
+        let Some(res) = guarded(out, "sam write_alignment_record", || sam_line(&h, rb)) else { return };
+        match res {
+            Ok(l) => {
+                acc.push(i);
+                lines.push(l);
+            }
+            Err(e) => out.count(&format!("rejected_by_sam_writer[{}]", reason(&e)), 1),
+        }
+    }
+    out.count("records_written_as_sam", acc.len() as u64);
+    for &i in &acc {
+        out.fps.push(fnv1a(rec_class(&descs[i]).as_bytes()));
+        for a in gensam::aux_classes(&descs[i]) {
+            out.fps.push(fnv1a(a.as_bytes()));
+        }
+    }
+    let mut text = htext.clone();
+    for l in &lines {
+        text.extend_from_slice(l);
+    }
+    // the whole file written through one writer must be the same bytes
+    let whole = guarded(out, "sam writer", || -> std::io::Result<Vec<u8>> {
+        let mut w = sam::io::Writer::new(Vec::new());
+        w.write_header(&h)?;
+        for &i in &acc {
+            w.write_alignment_record(&h, &rbs[i])?;
+        }
+        Ok(w.into_inner())
+    });
+    match whole {
+        None => return,
+        Some(Ok(t)) if t == text => {}
+        Some(Ok(_)) => out.violation("sam:file-ne-concatenated-lines", "one writer over the whole file emits other bytes than record-wise writers"),
+        Some(Err(e)) => out.violation("sam:file-write-fails", format!("records accepted one by one are rejected in sequence: {e}")),
+    }
+
+    // (iii) third opinion on every line
+    for (k, &i) in acc.iter().enumerate() {
+        let d = &descs[i];
+        let line = &lines[k];
+        let Some(body) = line.strip_suffix(b"\n") else {
+            out.violation("line:no-newline", format!("record line does not end with LF: {}", lossy(line)));
+            continue;
+        };
+        if body.contains(&b'\n') || body.contains(&b'\r') {
+            out.violation("line:inner-newline", format!("record line contains a line break: {}", lossy(line)));
+            continue;
+        }
+        let cols: Vec<&[u8]> = body.split(|b| *b == b'\t').collect();
+        let want = sam_columns(d, &hd);
+        out.count("lines_checked_independently", 1);
+        if cols.len() != want.len() {
+            out.violation_with(
+                "line:column-count",
+                format!("{} columns, expected {} ({}): {}", cols.len(), want.len(), summary(d), lossy(line)),
+                json!({"record": i}),
+            );
+            continue;
+        }
+        for j in 0..want.len() {
+            if j >= 11 && !aux_text_is_canonical(&d.aux[j - 11].1) {
+                continue; // floats: judged by value below
+            }
+            let mut ok = cols[j] == &want[j][..];
+            if !ok && j == 6 && d.mate_ref_id.is_some() && d.mate_ref_id == d.ref_id {
+                // "=" is optional: the full name says the same
+                ok = cols[j] == cols[2];
+                out.count("rnext_spelled_out", 1);
+            }
+            if !ok {
+                let t = if j >= 11 { format!("aux:{}", d.aux[j - 11].1.type_code()) } else { COLS[j].to_string() };
+                out.violation_with(
+                    format!("line:column:{t}"),
+                    format!("column {} is {:?}, the description says {:?}; record: {}", j + 1, lossy(cols[j]), lossy(&want[j]), summary(d)),
+                    json!({"record": i}),
+                );
+            }
+        }
+        match parse_sam_line(line, &hd) {
+            Err(e) => out.violation_with("line:independent-reader-rejects", format!("dumb SAM reader: {e}; line: {}", lossy(line)), json!({"record": i})),
+            Ok(p) => {
+                if let Some(df) = diff_records(&sam_normal_form(d), &p, &Cmp::TEXT) {
+                    out.violation_with(
+                        format!("line:independent-reader:{}", df.field),
+                        format!("the emitted line says something else in {}: {}; line: {}", df.field, df.detail, lossy(line)),
+                        json!({"record": i}),
+                    );
+                }
+            }
+        }
+    }
+
+    // (i) parse back eagerly
+    let Some(sf) = guarded(out, "sam reader", || read_sam_eager(&text)) else { return };
+    let sf = match sf {
+        Ok(x) => x,
+        Err(e) => {
+            out.violation(format!("sam:parse-fails:{}", e.split('#').next().unwrap_or("?").trim()), format!("noodles cannot parse its own SAM text: {e}"));
+            return;
+        }
+    };
+    if describe_header(&sf.header) != hd {
+        out.violation("header:parse-write-ne:in-file", "header read from the SAM file != header written");
+    }
+    if sf.eager.len() != acc.len() {
+        out.violation("sam:record-count", format!("{} records written, {} parsed", acc.len(), sf.eager.len()));
+        return;
+    }
+    let sdescs: Vec<RecDesc> = sf.eager.iter().map(describe_record).collect();
+    for (k, &i) in acc.iter().enumerate() {
+        out.count("compared_parse_write", 1);
+        if let Some(df) = diff_records(&sam_normal_form(&descs[i]), &sdescs[k], &Cmp::TEXT) {
+            out.violation_with(
+                format!("parse-write-ne:{}", df.field),
+                format!("parse(write(record)) differs in {}: {}; line: {}", df.field, df.detail, lossy(&lines[k])),
+                json!({"record": i}),
+            );
+        }
+    }
+    // (i) lazily
+    let Some(lz) = guarded(out, "sam lazy reader", || read_sam_lazy(&text)) else { return };
+    let lz = match lz {
+        Ok(v) if v.len() == acc.len() => v,
+        Ok(v) => {
+            out.violation("lazy-sam:record-count", format!("{} records written, {} read lazily", acc.len(), v.len()));
+            return;
+        }
+        Err(e) => {
+            out.violation(format!("lazy-sam:read-fails:{}", e.split('#').next().unwrap_or("?").trim()), format!("read_record fails on noodles' own text: {e}"));
+            return;
+        }
+    };
+    // records whose lazy view is unusable are left out of the pipelines below
+    let mut lazy_ok = vec![true; lz.len()];
+    for (k, rec) in lz.iter().enumerate() {
+        let i = acc[k];
+        out.count("compared_lazy_sam", 1);
+        let views = [
+            ("trait", guard::catch(|| describe_alignment_record(rec, &sf.header))),
+            ("try_from_alignment_record", guard::catch(|| RecordBuf::try_from_alignment_record(&sf.header, rec).map(|rb| describe_record(&rb)).map_err(|e| format!("convert: {e}")))),
+        ];
+        for (path, v) in views {
+            match v {
+                Err(p) => {
+                    lazy_ok[k] = false;
+                    out.violation_with(format!("panic:{}", p.sig), format!("lazy sam::Record ({path}) panicked: {}", p.message), json!({"record": i}));
+                }
+                Ok(Err(msg)) => {
+                    lazy_ok[k] = false;
+                    // diagnostic class: an empty B array followed by another field
+                    let d = &descs[i];
+                    let empty_not_last = d.aux.iter().enumerate().any(|(j, a)| a.1.array_len() == Some(0) && j + 1 < d.aux.len());
+                    let sig = if msg.contains("invalid delimiter") && empty_not_last {
+                        "lazy-sam:data-fails:empty-array-followed-by-field".to_string()
+                    } else {
+                        format!("lazy-sam:{path}:accessor-fails:{}", msg.split(':').next().unwrap_or("?"))
+                    };
+                    out.violation_with(sig, format!("lazy sam::Record ({path}) of noodles' own line fails: {msg}; line: {}", lossy(&lines[k])), json!({"record": i}));
+                }
+                Ok(Ok(l)) => {
+                    if let Some(df) = diff_records(&sam_normal_form(&descs[i]), &l, &Cmp::TEXT) {
+                        out.violation_with(
+                            format!("lazy-sam:{path}:{}", df.field),
+                            format!("lazy sam::Record ({path}) differs from the written record in {}: {}; line: {}", df.field, df.detail, lossy(&lines[k])),
+                            json!({"record": i}),
+                        );
+                    }
+                }
+            }
+        }
+    }
+
+    // (ii) fixed point, eager and lazy
+    for (k, rb) in sf.eager.iter().enumerate() {
+        out.count("fixed_point_checked", 1);
+        match guarded(out, "sam writer", || sam_line(&sf.header, rb)) {
+            None => return,
+            Some(Ok(l2)) if l2 == lines[k] => {}
+            Some(Ok(l2)) => {
+                let (_, j, a, b) = text_diff(&lines[k], &l2, false).into_iter().next().unwrap_or((0, usize::MAX, Vec::new(), Vec::new()));
+                let (a, b) = (lossy(&a), lossy(&b));
+                let t = if j != usize::MAX && j >= 11 { format!("aux:{}", descs[acc[k]].aux.get(j - 11).map(|a| a.1.type_code()).unwrap_or("?")) } else { col_name(j) };
+                out.violation_with(format!("not-a-fixed-point:{t}"), format!("write(parse(line)) != line in column {}: {a:?} became {b:?}", j.wrapping_add(1)), json!({"record": acc[k]}));
+            }
+            Some(Err(e)) => out.violation_with(format!("rewrite-fails:{}", reason(&e)), format!("a parsed record cannot be written again: {e}; line: {}", lossy(&lines[k])), json!({"record": acc[k]})),
+        }
+        if !lazy_ok[k] {
+            continue;
+        }
+        let l3 = guarded(out, "sam writer (lazy record)", || {
+            let mut w = sam::io::Writer::new(Vec::new());
+            w.write_record(&sf.header, &lz[k]).map(|_| w.into_inner())
+        });
+        match l3 {
+            None => return,
+            Some(Ok(l3)) if l3 == lines[k] => {}
+            Some(Ok(l3)) => {
+                let (_, j, a, b) = text_diff(&lines[k], &l3, false).into_iter().next().unwrap_or((0, usize::MAX, Vec::new(), Vec::new()));
+                let (a, b) = (lossy(&a), lossy(&b));
+                out.violation_with(format!("lazy-sam:not-a-fixed-point:{}", col_name(j)), format!("write_record(lazy(line)) != line in column {}: {a:?} became {b:?}", j.wrapping_add(1)), json!({"record": acc[k]}));
+            }
+            Some(Err(e)) => out.violation_with(format!("lazy-sam:rewrite-fails:{}", reason(&e)), format!("a lazy record cannot be written again: {e}; line: {}", lossy(&lines[k])), json!({"record": acc[k]})),
+        }
+    }
+
+    // (iv) the same record set as BAM
+    let acc_rbs: Vec<RecordBuf> = acc.iter().map(|&i| rbs[i].clone()).collect();
+    let Some(wb) = guarded(out, "bam writer", || write_bam(bgzf, &h, &acc_rbs)) else { return };
+    let (bfile, bres) = match wb {
+        Ok(x) => x,
+        Err(e) => {
+            out.count(&format!("bam_writer_rejects_header[{e}]"), 1);
+            out.inconclusive.push(format!("BAM writer rejects the header: {e}"));
+            return;
+        }
+    };
+    // positions (into acc) of the records both formats accepted
+    let both: Vec<usize> = (0..acc.len()).filter(|&k| bres[k].is_ok()).collect();
+    for r in bres.iter().filter_map(|r| r.as_ref().err()) {
+        out.count(&format!("rejected_by_bam_writer[{r}]"), 1);
+    }
+    let Some(rb) = guarded(out, "bam reader", || read_bam_eager(bgzf, &bfile)) else { return };
+    let (hb, brecs) = match rb {
+        Ok(x) => x,
+        Err(e) => {
+            let long = descs.iter().any(|d| d.cigar.len() > 65_535);
+            out.violation(format!("bam:read-fails:{}{}", e.split('#').next().unwrap_or("?").trim(), if long { ":long-cigar-batch" } else { "" }), format!("the BAM rendering cannot be read back: {e}"));
+            return;
+        }
+    };
+    if describe_header(&hb) != describe_header(&sf.header) {
+        out.violation("header:bam-ne-sam:in-file", "header read from BAM != header read from SAM");
+    }
+    if brecs.len() != both.len() {
+        out.violation("bam:record-count", format!("{} accepted by the BAM writer, {} read back", both.len(), brecs.len()));
+        return;
+    }
+    let bdescs: Vec<RecDesc> = brecs.iter().map(describe_record).collect();
+    for (j, &k) in both.iter().enumerate() {
+        out.count("compared_sam_vs_bam", 1);
+        // QUAL of the single score 9 is '*' in SAM text: the BAM side is put into the same normal form
+        if let Some(df) = diff_records(&bam_normal_form(&sdescs[k]), &sam_normal_form(&bdescs[j]), &Cmp::TEXT) {
+            out.violation_with(
+                format!("sam-ne-bam:{}", df.field),
+                format!("the record read from BAM differs from the one read from SAM in {}: {}; SAM line: {}", df.field, df.detail, lossy(&lines[k])),
+                json!({"record": acc[k]}),
+            );
+        }
+    }
+
+    // pipelines. The reference text: the lines both writers accepted and whose lazy view works.
+    let pipe: Vec<usize> = both.iter().copied().filter(|&k| lazy_ok[k]).collect();
+    let mut ref_text = htext.clone();
+    for &k in &pipe {
+        ref_text.extend_from_slice(&lines[k]);
+    }
+    // the BAM rendering of exactly these records (eager values, declared widths)
+    let pipe_rbs: Vec<RecordBuf> = pipe.iter().map(|&k| rbs[acc[k]].clone()).collect();
+    let Some(Ok((pfile, _))) = guarded(out, "bam writer", || write_bam(bgzf, &h, &pipe_rbs)) else { return };
+    let Some(Ok((_, precs))) = guarded(out, "bam reader", || read_bam_eager(bgzf, &pfile)) else {
+        out.inconclusive.push("pipeline BAM file unreadable (already reported by the BAM comparison)".into());
+        return;
+    };
+    let pdescs: Vec<RecDesc> = precs.iter().map(describe_record).collect();
+    for via_buf in [false, true] {
+        let tag = if via_buf { "via-record-buf" } else { "direct" };
+        // SAM -> BAM -> SAM
+        let r = guarded(out, "SAM->BAM->SAM", || -> Result<Vec<u8>, String> {
+            let bfile = if via_buf {
+                let v: Vec<RecordBuf> = pipe.iter().map(|&k| RecordBuf::try_from_alignment_record(&sf.header, &lz[k]).map_err(|e| format!("convert sam->buf: {e}"))).collect::<Result<_, _>>()?;
+                let (f, res) = write_bam(bgzf, &sf.header, &v)?;
+                if let Some(e) = res.iter().find_map(|r| r.as_ref().err()) {
+                    return Err(format!("bam writer rejects a converted record: {e}"));
+                }
+                f
+            } else {
+                let v: Vec<&sam::Record> = pipe.iter().map(|&k| &lz[k]).collect();
+                let (f, res) = write_bam(bgzf, &sf.header, &v.iter().map(|r| RecAdapter(*r)).collect::<Vec<_>>())?;
+                if let Some(e) = res.iter().find_map(|r| r.as_ref().err()) {
+                    return Err(format!("bam writer rejects a lazy SAM record: {e}"));
+                }
+                f
+            };
+            let (hb, _) = read_bam_eager(bgzf, &bfile).or_else(|e| {
+                // the header alone, if a record is unreadable
+                if bgzf { bam::io::Reader::new(&bfile[..]).read_header() } else { bam::io::Reader::from(&bfile[..]).read_header() }.map(|h| (h, Vec::new())).map_err(|_| e)
+            })?;
+            let lb = read_bam_lazy(bgzf, &bfile)?;
+            let mut t = sam_header_text(&hb).map_err(|e| format!("write header: {e}"))?;
+            for rec in &lb {
+                let l = if via_buf {
+                    let b = RecordBuf::try_from_alignment_record(&hb, rec).map_err(|e| format!("convert bam->buf: {e}"))?;
+                    sam_line(&hb, &b)
+                } else {
+                    sam_line(&hb, rec)
+                }
+                .map_err(|e| format!("sam writer rejects a BAM record: {}", reason(&e)))?;
+                t.extend_from_slice(&l);
+            }
+            Ok(t)
+        });
+        match r {
+            None => return,
+            Some(Err(e)) => out.violation(format!("sam-bam-sam:{tag}:fails:{}", guard::normalise_message(&e).chars().take(50).collect::<String>()), format!("SAM->BAM->SAM ({tag}) fails: {e}")),
+            Some(Ok(t)) => {
+                out.count(&format!("pipeline_sam_bam_sam[{tag}]"), pipe.len() as u64);
+                for (ln, j, a, b) in text_diff(&ref_text, &t, true) {
+                    let extra_cg = j == usize::MAX && a.split(|c| *c == b'\t').nth(5).map(|c| c.iter().filter(|x| !x.is_ascii_digit()).count() > 65_535).unwrap_or(false) && only_extra_cg_column(&a, &b);
+                    let sig = if extra_cg { "sam-bam-sam:extra-CG-field-of-long-cigar".to_string() } else { format!("sam-bam-sam:{tag}:{}", col_name(j)) };
+                    out.violation(sig, format!("SAM->BAM->SAM ({tag}) changes line {ln}, {}: {:?} became {:?}", col_name(j), lossy(&a), lossy(&b[b.len().saturating_sub(300)..])));
+                }
+            }
+        }
+        // BAM -> SAM -> BAM
+        let r = guarded(out, "BAM->SAM->BAM", || -> Result<Vec<RecordBuf>, String> {
+            let lb = read_bam_lazy(bgzf, &pfile)?;
+            let mut t = sam_header_text(&hb).map_err(|e| format!("write header: {e}"))?;
+            for rec in &lb {
+                let l = if via_buf {
+                    let b = RecordBuf::try_from_alignment_record(&hb, rec).map_err(|e| format!("convert bam->buf: {e}"))?;
+                    sam_line(&hb, &b)
+                } else {
+                    sam_line(&hb, rec)
+                }
+                .map_err(|e| format!("sam writer rejects a BAM record: {}", reason(&e)))?;
+                t.extend_from_slice(&l);
+            }
+            let h2 = sam::io::Reader::new(&t[..]).read_header().map_err(|e| format!("read sam header: {e}"))?;
+            let ls = read_sam_lazy(&t)?;
+            let (f2, res) = if via_buf {
+                let v: Vec<RecordBuf> = ls.iter().map(|r| RecordBuf::try_from_alignment_record(&h2, r).map_err(|e| format!("convert sam->buf: {e}"))).collect::<Result<_, _>>()?;
+                write_bam(!bgzf, &h2, &v)?
+            } else {
+                write_bam(!bgzf, &h2, &ls)?
+            };
+            if let Some(e) = res.iter().find_map(|r| r.as_ref().err()) {
+                return Err(format!("bam writer rejects a record that came from BAM: {e}"));
+            }
+            let (h3, v) = read_bam_eager(!bgzf, &f2)?;
+            if describe_header(&h3) != describe_header(&hb) {
+                return Err("header changed".into());
+            }
+            Ok(v)
+        });
+        match r {
+            None => return,
+            Some(Err(e)) => {
+                let long = pipe.iter().any(|&k| descs[acc[k]].cigar.len() > 65_535);
+                // an empty array that is followed by a field in the SAM rendering of the BAM record:
+                // by the next generated field, or by the CG field a long CIGAR leaves behind
+                let empty_arr = pipe.iter().any(|&k| {
+                    let d = &descs[acc[k]];
+                    d.aux.iter().enumerate().any(|(j, a)| a.1.array_len() == Some(0) && (j + 1 < d.aux.len() || d.cigar.len() > 65_535))
+                });
+                let class = if e.contains("invalid delimiter") && empty_arr {
+                    "lazy-sam-empty-array".to_string()
+                } else if long && e.contains("duplicate tag") {
+                    "long-cigar-duplicate-CG".to_string()
+                } else {
+                    guard::normalise_message(&e).chars().take(50).collect()
+                };
+                let sig = if class == "lazy-sam-empty-array" { format!("bam-sam-bam:fails:{class}") } else { format!("bam-sam-bam:{tag}:fails:{class}") };
+                out.violation(sig, format!("BAM->SAM->BAM ({tag}) fails: {e}"));
+            }
+            Some(Ok(v)) => {
+                out.count(&format!("pipeline_bam_sam_bam[{tag}]"), v.len() as u64);
+                if v.len() != precs.len() {
+                    out.violation(format!("bam-sam-bam:{tag}:record-count"), format!("{} records became {}", precs.len(), v.len()));
+                } else {
+                    for (j, rb2) in v.iter().enumerate() {
+                        if let Some(df) = diff_records(&sam_normal_form(&pdescs[j]), &describe_record(rb2), &Cmp::TEXT) {
+                            let long = pdescs[j].cigar.len() > 65_535;
+                            let sig = if long && df.field == "aux:count" { "bam-sam-bam:extra-CG-field-of-long-cigar".to_string() } else { format!("bam-sam-bam:{tag}:{}", df.field) };
+                            out.violation_with(sig, format!("BAM->SAM->BAM ({tag}) changes {}: {}; record: {}", df.field, df.detail, summary(&pdescs[j])), json!({"record": acc[pipe[j]]}));
+                        }
+                    }
+                }
+            }
+        }
+    }
+    if idx % 23 == 0 {
+        out.sample = Some(json!({"case": case_json(c), "header_lines": htext.iter().filter(|b| **b == b'\n').count(),
+            "records": descs.len(), "first_line": lines.first().map(|l| lossy(l))}));
+    }
+}
+
+fn run_headers(c: &Case, idx: u64, out: &mut CaseOut) {
+    let mut rng = Rng::new(c.cseed, 0xC06, 2);
+    out.evaluations = c.n as u64;
+    for k in 0..c.n {
+        let mut o = HeaderOpts::full();
+        if k % 25 == 0 {
+            o.max_refs = 400;
+        }
+        let hd = gen_header(&mut rng, &o);
+        out.fps.push(fnv1a(header_class(&hd).as_bytes()));
+        let t = check_header(out, &hd, k % 2 == 0);
+        if idx % 29 == 0 && k == 0 {
+            out.sample = Some(json!({"case": case_json(c), "header_text": t.map(|t| lossy(&t))}));
+        }
+    }
+}
 
 fn main() {
-    eprintln!("c06: not implemented");
-    std::process::exit(2);
+    let ctx = Ctx::from_args();
+    let ctx = vcore::cases::replay_request(&ctx).map(|r| r.1).unwrap_or(ctx);
+    let mut rep = Report::new(
+        "record case = generated header + batch of records of gensam's SAM-text model (names over [!-?A-~] 1..254 or *, 12 flag bits, POS up to \
+         2^31-1, MAPQ 0..255, CIGARs of 0..2000 and 65535..70000 operations over 9 kinds, SEQ over [A-Za-z=.] or *, QUAL present/missing, '=' / \
+         other / missing mate reference, aux A i(6 widths) f Z H B:cCsSiIf at range edges incl. empty arrays, -0, subnormals); header case = 100 \
+         generated headers (0..400 @SQ, @HD versions, @RG/@PG with PP chains/@CO incl. TABs and UTF-8, standard + user tags); deterministic \
+         boundary corpus + VERIF_SEED-seeded random part; evaluation = one record or one header; distinct = distinct gensam::rec_class / aux \
+         type class of a record the SAM writer accepted, plus distinct header classes (line kinds present, counts 0/1/few/many, user tags, PP); \
+         non-trivial = all (every accepted value is parsed back eagerly and lazily, re-written, checked against the independent rendering, \
+         and pushed through BAM)",
+    );
+    rep.assumptions.push("oracles: the generator's description; gensam's SAM line/header renderer and dumb readers written from SAMv1 1.3-1.5 (floats through Rust's std parser); noodles' own inverse implementation".into());
+    rep.assumptions.push("tolerances, all format-inherent: integers compared by value (SAM has one integer type); MAPQ 255 = missing; QUAL of the single score 9 prints as '*' and reads as missing; bases compared in BAM 4-bit normal form (upper case, non-alphabet -> N) whenever a BAM hop is involved; RNEXT may be '=' or the spelled-out RNAME; header equality is ordered (lines per kind and tags per line in order), the relative order of line kinds is not part of the typed header".into());
+    rep.assumptions.push("not generated: non-finite floats, TAB/LF in strings, tag CG, CIGAR lengths >= 2^28 (no BAM encoding), duplicate tags".into());
+    let cases = gen_cases(&ctx);
+    let f = |i: u64| -> CaseOut {
+        let c = &cases[i as usize];
+        let mut out = CaseOut::new();
+        if c.kind == "headers" { run_headers(c, i, &mut out) } else { run_records(c, i, &mut out) }
+        out
+    };
+    run_cases(&ctx, &mut rep, cases.len() as u64, 120.0, &f, &|i| case_json(&cases[i as usize]));
+    if ctx.replay.is_none() {
+        let counters = rep.counters.clone();
+        let g = |k: &str| counters.get(k).copied().unwrap_or(0);
+        let want = ctx.budget("records", 20_000, 1_000_000) * 8 / 10;
+        rep.floor("records_written_as_sam", g("records_written_as_sam"), want);
+        rep.floor("compared_parse_write", g("compared_parse_write"), want);
+        rep.floor("compared_lazy_sam", g("compared_lazy_sam"), want);
+        rep.floor("fixed_point_checked", g("fixed_point_checked"), want);
+        rep.floor("lines_checked_independently", g("lines_checked_independently"), want);
+        rep.floor("compared_sam_vs_bam", g("compared_sam_vs_bam"), want);
+        rep.floor("pipeline_sam_bam_sam[direct]", g("pipeline_sam_bam_sam[direct]"), want / 2);
+        rep.floor("pipeline_bam_sam_bam[direct]", g("pipeline_bam_sam_bam[direct]"), want / 2);
+        rep.floor("headers_written", g("headers_written"), ctx.budget("headers", 2_000, 50_000) * 8 / 10);
+        rep.floor("headers_compared_sam_vs_bam", g("headers_compared_sam_vs_bam"), ctx.budget("headers", 2_000, 50_000) * 8 / 10);
+    }
+    rep.finish(&ctx);
 }
